@@ -158,9 +158,11 @@ def _builtin(s, ctx, func, g, tc, A, caller, ln, last):
     if re.search(r'(Mutex|RwLock)::(try_lock|try_read|try_write)$', g):
         lk = deref_all(A[0]); mode = 'r' if last == 'try_read' else 'w'
         yield from s.sched_point(ctx, 'try_lock')
-        if (mode == 'w' and lk.state != 0) or (mode == 'r' and lk.state < 0): return none()
+        kind = 0 if lk.kind == 'Mutex' else (1 if mode == 'r' else 2)
+        if (mode == 'w' and lk.state != 0) or (mode == 'r' and lk.state < 0):
+            ctx.events.append(('lock', ctx.tid, lk.name, 'try-failed', kind, 1)); return none()        # the attempt is an event of the schedule too
         lk.state = -1 if mode == 'w' else lk.state + 1; lk.owners.append(ctx.tid)
-        ctx.events.append(('lock', ctx.tid, lk.name, mode)); return some(GuardM(lk, mode, ctx.tid))
+        ctx.events.append(('lock', ctx.tid, lk.name, mode, kind, 1)); return some(GuardM(lk, mode, ctx.tid))
     if tc and tc[0] in ('MutexGuard', 'RwLockReadGuard', 'RwLockWriteGuard', 'MappedMutexGuard') and tc[2] in ('deref', 'deref_mut'):
         gd = deref_all(A[0])
         if not gd.live: raise Panic('use of a released guard')
@@ -675,9 +677,28 @@ def _builtin(s, ctx, func, g, tc, A, caller, ln, last):
             if is_conc(b): return a ** b
             raise Unsupported('symbolic exponent')
     if re.search(r'<impl f64>::(min|max)$', g) or (tc and tc[0] == 'f64' and tc[2] in ('min', 'max')):
-        a, b = to_real(A[0]), to_real(A[1])
+        from .engine import FSpec
+        x, y = A[0], A[1]
+        if isinstance(x, FSpec) or isinstance(y, FSpec):
+            # IEEE minNum / maxNum: a NaN operand is dropped; infinities order as usual
+            if isinstance(x, FSpec) and x.kind == 'nan': return y
+            if isinstance(y, FSpec) and y.kind == 'nan': return x
+            sp, fin = (x, y) if isinstance(x, FSpec) else (y, x)
+            if isinstance(fin, FSpec): return sp if (sp.kind == 'inf') == (last == 'max') else fin
+            return sp if (sp.kind == 'inf') == (last == 'max') else fin
+        a, b = to_real(x), to_real(y)
         return z3.If(a < b, a, b) if last == 'min' else z3.If(a > b, a, b)
+    if re.search(r'<impl f64>::clamp$', g) or (tc and tc[0] == 'f64' and tc[2] == 'clamp'):
+        from .engine import FSpec
+        x, lo, hi = A[0], A[1], A[2]
+        if isinstance(x, FSpec): return x if x.kind == 'nan' else (hi if x.kind == 'inf' else lo)       # clamp propagates NaN
+        x, lo, hi = to_real(x), to_real(lo), to_real(hi)
+        return z3.If(x < lo, lo, z3.If(x > hi, hi, x))
     if re.search(r'<impl f64>::powf$', g) or E('f64::powf'):
+        from .engine import FSpec, NAN
+        if isinstance(A[0], FSpec) or isinstance(A[1], FSpec):
+            if (isinstance(A[0], FSpec) and A[0].kind == 'nan') or (isinstance(A[1], FSpec) and A[1].kind == 'nan'): return NAN
+            raise Unsupported('powf of an infinite value')
         return s.powf(ctx, to_real(A[0]), to_real(A[1]))
     if re.search(r'<impl f64>::(abs)$', g): return z3.If(A[0] >= 0, A[0], -A[0])
     if re.search(r'<impl f64>::(sqrt|ln|log2|log10|exp|powi|floor|ceil|round)$', g): raise Unsupported('f64::' + last)
